@@ -186,8 +186,254 @@ fn issue_val(j: u32, h: u32, m: u32, ry: i32, ro: u32) -> i64 {
     }
 }
 
-fn verif_harness_ext(_toks: &[&str]) -> String {
-    "HARNESS-ERROR unknown command".into()
+fn link_str(l: &sameold::LinkState) -> String {
+    match l {
+        sameold::LinkState::NoCarrier => "n".into(),
+        sameold::LinkState::Searching => "s".into(),
+        sameold::LinkState::Reading => "r".into(),
+        sameold::LinkState::Burst(b) => format!("B{}", hex_of_bytes(b)),
+        _ => "?".into(),
+    }
+}
+
+fn transport_str(t: &sameold::TransportState) -> String {
+    match t {
+        sameold::TransportState::Idle => "i".into(),
+        sameold::TransportState::Assembling => "a".into(),
+        sameold::TransportState::Message(Ok(m)) => format!("M{}", verif_harness::rxrun::msg_short(m)),
+        sameold::TransportState::Message(Err(e)) => format!("E{}", err_str(e)),
+        _ => "?".into(),
+    }
+}
+
+fn kv<'a>(toks: &'a [&'a str], key: &str) -> Option<&'a str> {
+    toks.iter().find_map(|t| t.strip_prefix(key).and_then(|r| r.strip_prefix('=')))
+}
+
+fn verif_harness_ext(toks: &[&str]) -> String {
+    use verif_harness::rxrun::{self, RxCfg, Schedule};
+    use verif_harness::synth::{self, Params};
+    match toks {
+        // framer <prefix budget> <invalid budget> <script>
+        ["framer", pfx, inv, script] => {
+            let mut f = verif::Framer::new(pfx.parse().unwrap(), inv.parse().unwrap());
+            let mut out = Vec::new();
+            for (i, t) in script.split(',').filter(|t| !t.is_empty()).enumerate() {
+                let (k, rest) = t.split_at(1);
+                let l = match k {
+                    "b" => f.input(u8::from_str_radix(rest, 16).unwrap(), i as u64, false),
+                    "r" => f.input(u8::from_str_radix(rest, 16).unwrap(), i as u64, true),
+                    "e" => f.end(),
+                    _ => panic!("bad framer token"),
+                };
+                out.push(link_str(&l));
+            }
+            if out.is_empty() { "-".into() } else { out.join(",") }
+        }
+        ["prefixerr", w] => format!("{}", verif::message_prefix_errors(w.parse().unwrap())),
+        // squelch <max errors> <script>: one char per symbol 0..7 = bit | po<<1 | pc<<2; L/U lock; E end
+        ["squelch", maxerr, script] => {
+            let mut sq = verif::CodeAndPowerSquelch::new(0xabababab, maxerr.parse().unwrap(), 0.5, 0.25, 1.0);
+            let mut out = String::new();
+            for c in script.chars() {
+                match c {
+                    'L' => sq.lock(true),
+                    'U' => sq.lock(false),
+                    'E' => sq.end(),
+                    '0'..='7' => {
+                        let v = c as u8 - b'0';
+                        let mag = if v & 2 != 0 { 1.0f32 } else if v & 4 != 0 { 0.6f32 } else { 0.1f32 };
+                        let sym = if v & 1 != 0 { mag } else { -mag };
+                        match sq.input(&[0.0f32, sym]) {
+                            verif::SquelchState::NoCarrier => out.push('n'),
+                            verif::SquelchState::DroppedCarrier => out.push('d'),
+                            verif::SquelchState::Reading => out.push('r'),
+                            verif::SquelchState::Ready(re, o) => {
+                                let mut byte = 0u8;
+                                for i in 0..8 {
+                                    byte |= ((o.samples[2 * i + 1] >= 0.0) as u8) << i;
+                                }
+                                out.push_str(&format!("{}{:02x}", if re { 'Y' } else { 'y' }, byte));
+                            }
+                        }
+                    }
+                    _ => panic!("bad squelch token"),
+                }
+            }
+            if out.is_empty() { "-".into() } else { out }
+        }
+        // asm <script>: a<time>:<hex> assemble, i<time> idle
+        ["asm", script] => {
+            let mut a = verif::Assembler::new();
+            let mut out = Vec::new();
+            for t in script.split(',').filter(|t| !t.is_empty()) {
+                let (k, rest) = t.split_at(1);
+                let st = match k {
+                    "a" => {
+                        let (tm, hx) = rest.split_once(':').unwrap();
+                        a.assemble(bytes_of_hex(hx), tm.parse().unwrap())
+                    }
+                    "i" => a.idle(rest.parse().unwrap()),
+                    _ => panic!("bad asm token"),
+                };
+                out.push(transport_str(&st));
+            }
+            if out.is_empty() { "-".into() } else { out.join(";") }
+        }
+        // rxaudio key=value ... : synthesize, run, report "<rx request for the model>|<events>|<extras>"
+        ["rxaudio", rest @ ..] => {
+            let g = |k: &str, d: &str| kv(rest, k).unwrap_or(d).to_owned();
+            let cfg = RxCfg {
+                rate: g("rate", "22050").parse().unwrap(),
+                prefix_err: g("pfx", "2").parse().unwrap(),
+                max_invalid: g("inv", "5").parse().unwrap(),
+                preamble_err: g("pre", "2").parse().unwrap(),
+            };
+            let p = Params {
+                rate: cfg.rate,
+                amp: g("amp", "10000").parse().unwrap(),
+                dc: g("dc", "0").parse().unwrap(),
+                phase: g("phase", "0").parse().unwrap(),
+                frac: g("frac", "0").parse().unwrap(),
+                baud_err: g("baud", "0").parse().unwrap(),
+                snr_db: kv(rest, "snr").map(|s| s.parse().unwrap()),
+                seed: g("seed", "1").parse().unwrap(),
+            };
+            let audio = synth::synthesize(&p, &g("script", ""));
+            let sched_s = g("sched", "whole");
+            let sched = match sched_s.split(':').collect::<Vec<_>>().as_slice() {
+                ["whole"] => Schedule::Whole,
+                ["chunks", s, m] => Schedule::Chunks(s.parse().unwrap(), m.parse().unwrap()),
+                ["one"] => Schedule::OneAtATime,
+                ["mixed", s] => Schedule::Mixed(s.parse().unwrap()),
+                _ => panic!("bad sched"),
+            };
+            let mut rx = rxrun::build(&cfg);
+            // optional: process a prefix, then reset(), then the rest (C18)
+            let reset_at: Option<usize> = kv(rest, "reset_at").map(|s| s.parse().unwrap());
+            let (audio_run, start): (&[f32], u64) = match reset_at {
+                Some(k) => {
+                    let k = usize::min(k, audio.len());
+                    for _e in rx.iter_events(audio[..k].iter().copied()) {}
+                    rx.reset();
+                    (&audio[k..], 0)
+                }
+                None => (&audio[..], 0),
+            };
+            let out = rxrun::run(&mut rx, audio_run, &sched);
+            let consumed = rx.input_sample_counter();
+            let flush_n: usize = g("flush", "0").parse().unwrap();
+            let flushed = if flush_n > 0 { rxrun::flush_all(&mut rx, flush_n) } else { vec![] };
+            let items = rxrun::trace_items(&out.trace, audio_run.len() as u64, start);
+            let evs = if out.events.is_empty() { "-".to_owned() } else { out.events.join(";") };
+            let dbg = format!("{:?}", rx);
+            let finite = !(dbg.contains("NaN") || dbg.contains("inf"));
+            format!(
+                "rx {} {} {} {} {}|{}|samples={} counter={} checks={:?} flushed={} finite={}",
+                cfg.rate, cfg.prefix_err, cfg.max_invalid, cfg.preamble_err, items, evs,
+                audio_run.len(), consumed, out.consumed_checks,
+                if flushed.is_empty() { "-".to_owned() } else { flushed.join(";") },
+                finite as u8
+            )
+        }
+        // cfgbuild key=value ...: build a receiver from builder parameters and run it briefly
+        ["cfgbuild", rest @ ..] => {
+            let f = |k: &str| -> Option<f32> {
+                kv(rest, k).map(|v| {
+                    if let Some(h) = v.strip_prefix("0x") {
+                        f32::from_bits(u32::from_str_radix(h, 16).unwrap())
+                    } else {
+                        v.parse().unwrap()
+                    }
+                })
+            };
+            let u = |k: &str| -> Option<u32> { kv(rest, k).map(|v| v.parse().unwrap()) };
+            let rate = u("rate").unwrap_or(22050);
+            let mut b = sameold::SameReceiverBuilder::new(rate);
+            if let Some(v) = f("dc") { b.with_dc_blocker_length(v); }
+            if let Some(v) = f("agcbw") { b.with_agc_bandwidth(v); }
+            if let (Some(lo), Some(hi)) = (f("gmin"), f("gmax")) { b.with_agc_gain_limits(lo, hi); }
+            if let (Some(a), Some(c)) = (f("tbu"), f("tbl")) { b.with_timing_bandwidth(a, c); }
+            if let Some(v) = f("tdev") { b.with_timing_max_deviation(v); }
+            if let (Some(a), Some(c)) = (f("sqo"), f("sqc")) { b.with_squelch_power(a, c); }
+            if let Some(v) = f("sqbw") { b.with_squelch_bandwidth(v); }
+            if let Some(v) = u("pre") { b.with_preamble_max_errors(v); }
+            if let Some(v) = u("pfx") { b.with_frame_prefix_max_errors(v); }
+            if let Some(v) = u("inv") { b.with_frame_max_invalid(v); }
+            match kv(rest, "eq") {
+                Some("none") => { b.without_adaptive_equalizer(); }
+                Some(spec) => {
+                    let p: Vec<&str> = spec.split(':').collect();
+                    let mut e = sameold::EqualizerBuilder::new();
+                    e.with_filter_order(p[0].parse().unwrap(), p[1].parse().unwrap());
+                    if p.len() > 2 { e.with_relaxation(p[2].parse().unwrap()); }
+                    if p.len() > 3 { e.with_regularization(p[3].parse().unwrap()); }
+                    b.with_adaptive_equalizer(&e);
+                }
+                None => {}
+            }
+            let mut rx = b.build();
+            let secs: f64 = kv(rest, "run").unwrap_or("0").parse().unwrap();
+            let mut nev = 0usize;
+            if secs > 0.0 {
+                let hdr: Vec<u8> = std::iter::repeat(0xabu8).take(16)
+                    .chain(b"ZCZC-WXR-RWT-012345+0015-0011122-NOCALL  -".iter().copied()).collect();
+                let p = Params { rate, amp: 8000.0, dc: 100.0, phase: 0.3, frac: 0.25, baud_err: 0.0,
+                                 snr_db: Some(25.0), seed: u("seed").unwrap_or(1) as u64 };
+                let script = format!("S0.05,B{},S0.05,N0.05:3000,Q0.05:20000:300", hex_of_bytes(&hdr));
+                let audio = synth::synthesize(&p, &script);
+                let n = usize::min(audio.len(), (secs * rate as f64) as usize);
+                nev = rx.iter_events(audio[..n].iter().copied()).count();
+            }
+            format!("ok events={}", nev)
+        }
+        // resetdbg <rxaudio params> reset_at=<k>: Debug of a reset receiver vs a fresh one
+        ["resetdbg", rest @ ..] => {
+            let g = |k: &str, d: &str| kv(rest, k).unwrap_or(d).to_owned();
+            let cfg = RxCfg {
+                rate: g("rate", "22050").parse().unwrap(),
+                prefix_err: g("pfx", "2").parse().unwrap(),
+                max_invalid: g("inv", "5").parse().unwrap(),
+                preamble_err: g("pre", "2").parse().unwrap(),
+            };
+            let p = Params {
+                rate: cfg.rate,
+                amp: g("amp", "10000").parse().unwrap(),
+                dc: g("dc", "0").parse().unwrap(),
+                phase: g("phase", "0").parse().unwrap(),
+                frac: g("frac", "0").parse().unwrap(),
+                baud_err: g("baud", "0").parse().unwrap(),
+                snr_db: kv(rest, "snr").map(|s| s.parse().unwrap()),
+                seed: g("seed", "1").parse().unwrap(),
+            };
+            let audio = synth::synthesize(&p, &g("script", ""));
+            let k = usize::min(g("reset_at", "0").parse().unwrap(), audio.len());
+            let mut rx = rxrun::build(&cfg);
+            for _e in rx.iter_events(audio[..k].iter().copied()) {}
+            rx.reset();
+            let a = format!("{:#?}", rx);
+            let b = format!("{:#?}", rxrun::build(&cfg));
+            if a == b {
+                "same".into()
+            } else {
+                let mut diffs = Vec::new();
+                let mut ctx: Vec<String> = Vec::new();
+                for (la, lb) in a.lines().zip(b.lines()) {
+                    let t = la.trim();
+                    if t.ends_with('{') || t.ends_with('[') || t.ends_with('(') {
+                        ctx.push(t.trim_end_matches(|c| c == '{' || c == '[' || c == '(' || c == ' ').to_owned());
+                    } else if t.starts_with('}') || t.starts_with(']') || t.starts_with(')') {
+                        ctx.pop();
+                    }
+                    if la != lb && diffs.len() < 8 {
+                        diffs.push(format!("{}/{} vs {}", ctx.join("/"), la.trim(), lb.trim()).replace(' ', "_"));
+                    }
+                }
+                format!("diff:{}", diffs.join(";"))
+            }
+        }
+        _ => "HARNESS-ERROR unknown command".into(),
+    }
 }
 
 fn main() {
